@@ -128,7 +128,14 @@ TPing == /\ IsEvent("Ping") /\ UNCHANGED tid
          /\ Chk("ping answered with one CompletePingCheck", TxSet(Rec.tx) = out'.tx /\ Len(Rec.tx) = 1 /\ Rec.pong_ok)
          /\ ChkDeliver2(Rec.dl, 0, 1)
          /\ ChkFut(Rec.fut)
-TNext == TLoopTick \/ TPing \/ TAlive \/ TDisconnect \/ TReset \/ TRecv \/ TStray \/ TSendRel \/ TSendUnrel \/ TTick \/ TSub
+\* {"ev":"Drain","level":l,"i":k,"got":[pids]}: the slow consumer reads everything parked for it
+TDrain == /\ IsEvent("Drain") /\ UNCHANGED tid
+          /\ Env("an async subscriber", Rec.i \in 1..Len(subs[Rec.level]) /\ subs[Rec.level][Rec.i].k = "asyncq")
+          /\ Drain(Rec.level, Rec.i)
+          /\ ChkStep
+          /\ Chk("async subscriber: every message once, in order", Rec.got = out'.drained)
+          /\ ChkFut(Rec.fut)
+TNext == TDrain \/ TLoopTick \/ TPing \/ TAlive \/ TDisconnect \/ TReset \/ TRecv \/ TStray \/ TSendRel \/ TSendUnrel \/ TTick \/ TSub
 TraceSpec == TInit /\ [][TNext]_tvars
 TraceAccepted == PrintT("TRACE_REACHED " \o ToString(TLCGet("stats").diameter - 1) \o " OF " \o ToString(Len(TraceLog)))
 ====
